@@ -24,7 +24,7 @@ prop("C07",
 
 prop("C08",
   shards_quick=8, shards_thorough=16,
-  rule="rapid-generated word lists (pool with twin pairs, pre-capitalised, caseless, non-ASCII, multi-word entries; a third of the cases are 'one twin pair + capitalisable words'), all schemes incl. unknown strings, every separator kind; per case K constructions of NewWordList from rapid-drawn permutations/multiplicities of the same words (K=24 quick, 100 thorough) x 3 Entropy() calls: every value within 4 ulp32 of the documented formula and all bit-identical; plus the shipped lists. Non-trivial = list contains w and Title(w), every kept word is capitalisable, scheme is one/random; distinct = distinct (kept set, length, scheme, separator).",
+  rule="rapid-generated word lists (pool with twin pairs, pre-capitalised, caseless, non-ASCII, multi-word entries; a third of the cases are 'one twin pair + capitalisable words'), all schemes incl. unknown strings, every separator kind; per case K constructions of NewWordList from rapid-drawn permutations/multiplicities of the same words (K=24 quick, 100 thorough) x 3 Entropy() calls: every value within 4 ulp32 of the documented formula and all bit-identical; plus the shipped lists. Non-trivial = list contains w and Title(w), every kept word is capitalisable, scheme is one/random; distinct = distinct (kept set, length, scheme, separator). Plus: several recipes (schemes x lengths) over one list object in turn; first Entropy() calls from six goroutines at once on a fresh list.",
   assumptions=["strings.Title defines the title-cased form", "Go map iteration order is randomised per construction (the check relies on repetition: an order dependence survives K constructions with probability <= 2^-K-ish per affected case)"],
   level_text="Generated-input search with repetition across constructions; differential against the documented formula plus a metamorphic relation (permutation/multiplicity invariance, call-to-call stability).",
   level_note="Cannot choose Go's map iteration order; relies on K repeated constructions per case. Float tolerance 4 ulp32 calibrated (worst observed 1.54).",
@@ -32,7 +32,7 @@ prop("C08",
 
 prop("C10",
   shards_quick=8, shards_thorough=16,
-  rule="rapid-generated input lists (duplicates, twins, pre-capitalised, caseless, special-casing and non-ASCII words, empty input); per case 1+K constructions from permutations/multiplicities (K=16 quick, 100 thorough); the kept set is read out by forcing every index of a one-word generation and must equal the reference normalisation as a set, Size() its cardinality, caller's slice unchanged, atoms under every capitalising scheme are kept words or title forms. Non-trivial = input with both a duplicate and a twin pair; distinct = distinct (kept set, input size).",
+  rule="rapid-generated input lists (duplicates, twins, pre-capitalised, caseless, special-casing and non-ASCII words, empty input); per case 1+K constructions from permutations/multiplicities (K=16 quick, 100 thorough); the kept set is read out by forcing every index of a one-word generation and must equal the reference normalisation as a set, Size() its cardinality, caller's slice unchanged, atoms under every capitalising scheme are kept words or title forms. Non-trivial = input with both a duplicate and a twin pair; distinct = distinct (kept set, input size). Plus: lists confusable with the generated one (two words merged, a word split) normalised right afterwards; the shipped lists and slices of them (full, prefix, shifted window) in one process.",
   assumptions=["strings.Title defines the title-cased form", "hook H3 announces the bound of each draw (used to force every word index)"],
   level_text="Generated-input search; exact set equality with a reference normalisation per constructed list (both directions), exhaustive over the indices of each list.",
   level_note="Lists come from a structured pool of ~40 words; map iteration order is covered by repetition only.",
@@ -40,7 +40,7 @@ prop("C10",
 
 prop("C11", fuzz={"targets": ["FuzzC11"], "seconds": 90},
   shards_quick=8, shards_thorough=16,
-  rule="(a) passwords generated by rapid-drawn character and wordlist recipes under scripted random tapes (non-ASCII alphabets, words, separators, empty separators, words of 255/256+ characters); (b) arbitrary (value,type) sequences built through the public full-index constructor, token lengths biased to 1,2,127-129,254,255 and to multi-byte characters, type patterns all-atom / alternating / S-A-S / random / undocumented type bytes. Oracle: MakeIndices succeeds for 1..255-character tokens, Tokenize(String(), index, entropy) returns identical values, types and entropy bits, index length obeys the documented size law (either size accepted for shapes the sentence leaves open); >255-character tokens: error or still-exact round trip. Non-trivial = a multi-byte token, a token >= 128 characters, or a sequence needing a full index; distinct = distinct token sequences.",
+  rule="(a) passwords generated by rapid-drawn character and wordlist recipes under scripted random tapes (non-ASCII alphabets, words, separators, empty separators, words of 255/256+ characters); (b) arbitrary (value,type) sequences built through the public full-index constructor, token lengths biased to 1,2,127-129,254,255 and to multi-byte characters, type patterns all-atom / alternating / S-A-S / random / undocumented type bytes. Oracle: MakeIndices succeeds for 1..255-character tokens, Tokenize(String(), index, entropy) returns identical values, types and entropy bits, index length obeys the documented size law (either size accepted for shapes the sentence leaves open); >255-character tokens: error or still-exact round trip. Non-trivial = a multi-byte token, a token >= 128 characters, or a sequence needing a full index; distinct = distinct token sequences. Decoy MakeIndices calls on other passwords are made between MakeIndices and Tokenize; a fortieth of the token values contain invalid UTF-8 bytes (error or exact); sequences spliced from constructed tokens and generated passphrases incl. tokens over 255 characters behind a pattern break.",
   assumptions=["a character is one UTF-8 sequence (utf8.DecodeRuneInString)"],
   level_text="Generated-input search with a round-trip oracle and a documented-size predicate.",
   level_note="Token sequences with more than 8 tokens come only from generated recipes (up to 12 atoms + separators). Native fuzzing is thorough-tier only.",
@@ -56,7 +56,7 @@ prop("C12", fuzz={"targets": ["FuzzC12"], "seconds": 90},
 
 prop("C01",
   shards_quick=16, shards_thorough=16, timeout_quick=1200, timeout_thorough=7200,
-  rule="(1) exhaustive sweeps: for each chosen bound n all 2^32 values of the first raw word are fed to the real bounded draw (hook H1) and histogrammed: every result < n, every alternative selected by exactly the same number of words, accepted+rejected = 2^32, accepted > 2^31, every rejected word followed by a known-accepted word yields that word's result after exactly two reads. quick: 3 bounds (a seed-chosen power of two, a seed-chosen small non-power, a seed-chosen odd bound in [2^16,2^24]); thorough: ~40 bounds <= 2^24 (all small alphabet/list sizes, 2^k+-1) and 16 bounds up to 2^32-1. (2) rapid over (n, tape) with boundary-biased words: result < n, consumption a positive multiple of 4, accepted-once/rejected-once stable, rejected prefixes never change the result, no 64 consecutive rejections. Non-trivial = swept bound that is not a power of two, or sampled case with at least one rejected word; distinct = distinct bound / distinct (n, words).",
+  rule="(1) exhaustive sweeps: for each chosen bound n all 2^32 values of the first raw word are fed to the real bounded draw (hook H1) and histogrammed: every result < n, every alternative selected by exactly the same number of words, accepted+rejected = 2^32, accepted > 2^31, every rejected word followed by a known-accepted word yields that word's result after exactly two reads. quick: 3 bounds (a seed-chosen power of two, a seed-chosen small non-power, a seed-chosen odd bound in [2^16,2^24]); thorough: ~40 bounds <= 2^24 (all small alphabet/list sizes, 2^k+-1) and 16 bounds up to 2^32-1. (2) rapid over (n, tape) with boundary-biased words: result < n, consumption a positive multiple of 4, accepted-once/rejected-once stable, rejected prefixes never change the result, no 64 consecutive rejections. Non-trivial = swept bound that is not a power of two, or sampled case with at least one rejected word; distinct = distinct bound / distinct (n, words). (3) long rejection runs: 1..257 rejected words (found by probing) before an accepted word must only change the number of words consumed; for floor(2^32/n) <= 6 no alternative may have more preimages than that among words congruent to an accepted one. (4) four goroutines drawing concurrently with two different bounds from a source cycling through a small word set: every result must be the single-threaded result of some word of the set for that bound.",
   assumptions=["hook H1 is the draw every generator uses (checked by the draw observer in C02-C06)", "bounds not swept are covered only by the sampled necessary conditions"],
   level_text="Exhaustive counting per swept bound (all 2^32 raw words; exact, algorithm-independent), sampled over bounds; plus generated (n, stream) cases asserting model-free necessary conditions for every bound class.",
   level_note="Exact only for the swept bounds. The oracle never assumes v%n, big-endian decoding or a particular rejection rule, so an unbiased sampler of another design passes.",
@@ -65,7 +65,7 @@ prop("C01",
 
 prop("C02",
   shards_quick=16, shards_thorough=16, timeout_quick=1200, timeout_thorough=7200,
-  rule="rapid-generated character recipes shrunk by construction to enumerable cells (|alphabet|^Length <= 2e4 quick / 2e5 thorough; class masks, colliding custom strings with duplicates and multi-byte characters, 0-3 required sets relaxed until Generate accepts). For each recipe the complete candidate cell is enumerated through forced index choices (every vector of the D draws of one candidate, D measured): the outputs of accepted leaves must be exactly the reference set of valid strings, each with the same exact weight, acceptance weight = exact p_success, every rejected leaf is followed by a complete redraw (continuation output unchanged, exactly D more draws); for small cells the same cell is re-enumerated behind 1 and one of {2,7,50,199} rejected candidates, and MaxTrials rejected candidates must give an error after exactly MaxTrials*D draws. Non-trivial = cell with >=1 rejected and >=2 accepted leaves, or an input listing a character twice with >=2 accepted leaves; distinct = distinct recipes.",
+  rule="rapid-generated character recipes shrunk by construction to enumerable cells (|alphabet|^Length <= 2e4 quick / 2e5 thorough; class masks, colliding custom strings with duplicates and multi-byte characters, 0-3 required sets relaxed until Generate accepts). For each recipe the complete candidate cell is enumerated through forced index choices (every vector of the D draws of one candidate, D measured): the outputs of accepted leaves must be exactly the reference set of valid strings, each with the same exact weight, acceptance weight = exact p_success, every rejected leaf is followed by a complete redraw (continuation output unchanged, exactly D more draws); for small cells the same cell is re-enumerated behind 1 and one of {2,7,50,199} rejected candidates, and MaxTrials rejected candidates must give an error after exactly MaxTrials*D draws. Non-trivial = cell with >=1 rejected and >=2 accepted leaves, or an input listing a character twice with >=2 accepted leaves; distinct = distinct recipes. Plus: recipes easily confused with the generated one (required sets merged/split/re-bracketed) are used first (half of the cases) or enumerated right afterwards (small cells) in the same process; for long recipes (Length 12-150) a support check (every character at every position among N uniformly driven generations, false-alarm bound 1e-12) and a local-injectivity check (the alternatives of each single draw give pairwise different passwords in the context of an accepted candidate).",
   assumptions=["hook H3 announces every bounded draw; H2 makes generation a function of the stream", "each index of a draw is equally likely (C01, swept for the bounds that occur)"],
   level_text="Exact output distribution per generated recipe by complete enumeration of the candidate cell (no sampling inside a cell), sampled over recipes. Cells are small by necessity; bias that needs long passwords or big alphabets is outside them.",
   level_note="Rests on C01 for per-draw uniformity and on the measured retry structure (checked per leaf). Does not assume which draw fills which position or the order of the alphabet.",
@@ -74,7 +74,7 @@ prop("C02",
 
 prop("C04",
   shards_quick=16, shards_thorough=16, timeout_quick=1200, timeout_thorough=7200,
-  rule="rapid-generated wordlist recipes small enough to enumerate (premise-respecting lists of 1-7 words from a structured pool incl. uncapitalisable, pre-capitalised, caseless and non-ASCII words; Length 1-6; the five schemes; separators: constants incl. empty and multi-byte, tiny presets, NewSFFunction over 1-4 characters with Length 1-2). The complete tree of index choices of Generate is enumerated (<= 2e4 leaves quick / 2e5 thorough) and the exact distribution over token sequences must equal, entry by entry, the push-forward of the uniform product (capitalised set x word indices x per-gap separator values); when every word is capitalisable all passwords must be equally likely. Plus both shipped lists: every index of a one-word password yields a distinct list word (complete), two-word passwords at forced corner indices. Non-trivial = list size not a power of two with Length >= 2, or scheme one/random, or a multi-valued functional separator with >= 2 gaps; distinct = distinct (kept list, length, scheme, separator).",
+  rule="rapid-generated wordlist recipes small enough to enumerate (premise-respecting lists of 1-7 words from a structured pool incl. uncapitalisable, pre-capitalised, caseless and non-ASCII words; Length 1-6; the five schemes; separators: constants incl. empty and multi-byte, tiny presets, NewSFFunction over 1-4 characters with Length 1-2). The complete tree of index choices of Generate is enumerated (<= 2e4 leaves quick / 2e5 thorough) and the exact distribution over token sequences must equal, entry by entry, the push-forward of the uniform product (capitalised set x word indices x per-gap separator values); when every word is capitalisable all passwords must be equally likely. Plus both shipped lists: every index of a one-word password yields a distinct list word (complete), two-word passwords at forced corner indices. Non-trivial = list size not a power of two with Length >= 2, or scheme one/random, or a multi-valued functional separator with >= 2 gaps; distinct = distinct (kept list, length, scheme, separator). Plus for recipes beyond enumeration (Length 8-160): support check (every word at every position, every position capitalised and not, every separator value in every gap) and local injectivity of every draw; separators include a caller-written function drawing through the library and under-claiming its entropy; every list is built after a confusable decoy list.",
   assumptions=["each index of a draw is equally likely (C01)", "hook H3 announces every bounded draw; H2 makes functional separators deterministic", "strings.Title defines capitalisation"],
   level_text="Exact output distribution per generated recipe by complete choice-tree enumeration, sampled over recipes; draw order is observed, not assumed.",
   level_note="Trees are small (<= 2e5 leaves): lists up to 7 words, lengths up to 6. Separator recipes with requirements (retries) are excluded from enumeration.",
@@ -83,7 +83,7 @@ prop("C04",
 
 prop("C06",
   shards_quick=16, shards_thorough=16, timeout_quick=1200, timeout_thorough=7200,
-  rule="the enumerable wordlist trees of C04 (half of them forced to one/random so lists with uncapitalisable or pre-capitalised words give non-uniform trees) and the enumerable character cells of C02. From the exact distribution: every returned Password carries the bits of recipe.Entropy(); -log2(max probability) >= Entropy (never overstated) and equals it within 4 ulp32 (min-entropy). For character cells with rejections the retry process is folded in exactly per candidate and by the geometric sum over MaxTrials. Non-trivial = non-uniform tree, functional separator, or a character cell with rejections; distinct = distinct recipes.",
+  rule="the enumerable wordlist trees of C04 (half of them forced to one/random so lists with uncapitalisable or pre-capitalised words give non-uniform trees) and the enumerable character cells of C02. From the exact distribution: every returned Password carries the bits of recipe.Entropy(); -log2(max probability) >= Entropy (never overstated) and equals it within 4 ulp32 (min-entropy). For character cells with rejections the retry process is folded in exactly per candidate and by the geometric sum over MaxTrials. Non-trivial = non-uniform tree, functional separator, or a character cell with rejections; distinct = distinct recipes. Plus long recipes (Length 20-100, one/random): formula value and support of every outcome the entropy counts; confusable sibling recipes are evaluated before the character cell.",
   assumptions=["each index of a draw is equally likely (C01)", "the retry structure measured by C02 (complete redraws)"],
   level_text="Exact max-probability per generated recipe from complete enumeration, compared with the reported entropy; sampled over recipes.",
   level_note="Small recipes only (<= 2e5 leaves). Float comparison tolerance 4 ulp32 + 1e-6.",
@@ -92,7 +92,7 @@ prop("C06",
 
 prop("C03",
   shards_quick=16, shards_thorough=16, timeout_quick=1200, timeout_thorough=7200,
-  rule="(1) all 2^15 (Allow,Require,Exclude) class-flag combinations: Alphabet() equals the reference alphabet, sorted and repeat-free (exhaustive); a seed-chosen eighth (quick) / all (thorough) of the feasible ones also generate once under a scripted tape. (2) rapid-generated recipes (colliding custom strings, multi-byte characters, 0-4 required sets, lengths to 64 with a tail to 2000) x raw scripted tapes: the password has exactly Length single-character atom tokens, String() is their concatenation, every character is in the reference alphabet, none is excluded, every live required set is hit. (3) forced draws: for every index j of the announced bound, one generation whose first draw and one whose last draw of the first candidate is j (so index 0 and n-1 always occur); all outputs valid, and when every j obtained an accepted first candidate the union of observed characters must be all of Alphabet(). Non-trivial = an excluded character that is also allowed/required, >= 2 required sets, or a multi-byte alphabet; distinct = distinct recipes.",
+  rule="(1) all 2^15 (Allow,Require,Exclude) class-flag combinations: Alphabet() equals the reference alphabet, sorted and repeat-free (exhaustive); a seed-chosen eighth (quick) / all (thorough) of the feasible ones also generate once under a scripted tape. (2) rapid-generated recipes (colliding custom strings, multi-byte characters, 0-4 required sets, lengths to 64 with a tail to 2000) x raw scripted tapes: the password has exactly Length single-character atom tokens, String() is their concatenation, every character is in the reference alphabet, none is excluded, every live required set is hit. (3) forced draws: for every index j of the announced bound, one generation whose first draw and one whose last draw of the first candidate is j (so index 0 and n-1 always occur); all outputs valid, and when every j obtained an accepted first candidate the union of observed characters must be all of Alphabet(). Non-trivial = an excluded character that is also allowed/required, >= 2 required sets, or a multi-byte alphabet; distinct = distinct recipes. Plus: (2b) confusable sibling recipes evaluated in the same process; (2c) long class-flag recipes (Length 20-220) whose first candidate is forced to one repeated character; the forced part also scripts a stream on which every candidate fails.",
   assumptions=["hook H3 (bounds) and H2 (deterministic alphabet order) for the forced part", "utf8 decoding defines a character"],
   level_text="Generated-input search with a reference validity predicate; exhaustive over the class-flag cube and over the indices of each generated recipe's character draw.",
   level_note="Custom strings come from a 30-character pool; validity of long passwords is checked on sampled streams only.",
@@ -101,7 +101,7 @@ prop("C03",
 
 prop("C05",
   shards_quick=16, shards_thorough=16,
-  rule="rapid-generated wordlist recipes (any list from the structured pool, Length 1-12, the five schemes and unknown scheme strings, constant separators incl. empty and multi-byte, presets, NewSFFunction recipes, scripted closures returning a drawn sequence incl. empty strings) under four stream modes (raw boundary-biased tape; every draw forced to its last index; to index 0; pseudo-random forced). Validity predicate: exactly Length atoms, each a kept word or title form with a selected/unselected assignment consistent with the scheme; constant non-empty separator: strictly A S A ... A with every S equal to it; empty: no separator tokens; functional: at most one separator token per gap, never leading/trailing, values producible by the function, and for scripted closures an in-order subsequence of the values actually returned (one fresh call per gap); String(), Atoms(), Separators() agree with the tokens. Non-trivial = Length >= 2 with scheme != none, or a functional / multi-byte / empty separator; distinct = distinct (kept list, length, scheme, separator, mode).",
+  rule="rapid-generated wordlist recipes (any list from the structured pool, Length 1-12, the five schemes and unknown scheme strings, constant separators incl. empty and multi-byte, presets, NewSFFunction recipes, scripted closures returning a drawn sequence incl. empty strings) under four stream modes (raw boundary-biased tape; every draw forced to its last index; to index 0; pseudo-random forced). Validity predicate: exactly Length atoms, each a kept word or title form with a selected/unselected assignment consistent with the scheme; constant non-empty separator: strictly A S A ... A with every S equal to it; empty: no separator tokens; functional: at most one separator token per gap, never leading/trailing, values producible by the function, and for scripted closures an in-order subsequence of the values actually returned (one fresh call per gap); String(), Atoms(), Separators() agree with the tokens. Non-trivial = Length >= 2 with scheme != none, or a functional / multi-byte / empty separator; distinct = distinct (kept list, length, scheme, separator, mode). Lengths to 300 in a twelfth of the cases; caller-written separators that draw through the library or generate 1-3 words from a second recipe over the same list (re-entrancy).",
   assumptions=["strings.Title defines capitalisation", "hook H3 for the forced modes"],
   level_text="Generated-input search with a validity predicate (many outputs are correct), boundary draws forced rather than hoped for.",
   level_note="Unknown scheme strings are judged with the weakest reading (any capitalisation).",
@@ -109,7 +109,7 @@ prop("C05",
 
 prop("C09", level="fault_enumeration",
   shards_quick=16, shards_thorough=16, timeout_quick=1200, timeout_thorough=7200,
-  rule="rapid-generated recipes of both kinds (character recipes with retries, wordlist recipes with constant, preset and NewSFFunction separators) x scripted source streams. (1) only the source: the same bytes give the same tokens, entropy and byte consumption on a second run and under 1-3 rapid-drawn chunkings of the same bytes (pieces of 0-4 bytes incl. (0,nil) reads); every announced draw consumes >= 4 source bytes; a recipe with >= 48 bits gives a different password on an unrelated stream. (2) fail closed: for a generation making R reads, a fault is injected at every read position k (all k when R <= 64, else the first/last 16 and a drawn sample) x delivered bytes 0..3 x error kind (custom, io.EOF, io.ErrUnexpectedEOF) x (keeps failing | recovers afterwards): the outcome must be a panic or an error and never a password. Non-trivial = case with a fault at a read position >= 1; distinct = distinct (recipe, stream).",
+  rule="rapid-generated recipes of both kinds (character recipes with retries, wordlist recipes with constant, preset and NewSFFunction separators) x scripted source streams. (1) only the source: the same bytes give the same tokens, entropy and byte consumption on a second run and under 1-3 rapid-drawn chunkings of the same bytes (pieces of 0-4 bytes incl. (0,nil) reads); every announced draw consumes >= 4 source bytes; a recipe with >= 48 bits gives a different password on an unrelated stream. (2) fail closed: for a generation making R reads, a fault is injected at every read position k (all k when R <= 64, else the first/last 16 and a drawn sample) x delivered bytes 0..3 x error kind (custom, io.EOF, io.ErrUnexpectedEOF) x (keeps failing | recovers afterwards): the outcome must be a panic or an error and never a password. Non-trivial = case with a fault at a read position >= 1; distinct = distinct (recipe, stream). A source that keeps failing must make generation abort (going on reading for 4000 reads is a violation). Concurrent accounting: a source handing out each 32-bit value once; the value-to-word map is learned sequentially, then the multiset of words chosen by 2-12 goroutines must equal the image of the consumed values.",
   assumptions=["crypto/rand.Read is io.ReadFull(rand.Reader, b) (go1.23)", "hook H3 (draw announcements) for the per-draw byte accounting"],
   level_text="Fault enumeration: every read position of each generated generation x every fault shape; plus metamorphic determinism/chunking relations over generated streams.",
   level_note="Full-length reads that also return an error are not faults under io.Reader's contract and are not injected. Randomness imported outside crypto/rand is detected only dynamically (a draw that consumes no source bytes).",
@@ -117,7 +117,7 @@ prop("C09", level="fault_enumeration",
 
 prop("C13",
   shards_quick=16, shards_thorough=16,
-  rule="rapid-generated character recipes over the whole feasibility range (degenerate: Length <= 0, empty alphabet, exclusion emptying sets; a band generator aiming single-attempt success p below / near / above the refusal threshold), MaxTrials in {1,5,200,1000} and MaxFailRate in {1e-9,1e-3,0.5} varied in a third of the cases, raw boundary-biased streams or a scripted stream on which every attempt fails; wordlist recipes incl. zero values, NewWLRecipe(n,nil), &WordList{}, Length <= 0. Oracle: never a panic; exactly one of (password,error); refused (error, zero draws, zero bytes) iff Length < 1, empty alphabet/list, or (1-p)^MaxTrials > MaxFailRate with p exact (cases within 1% of the limit assert nothing); otherwise an error only after MaxTrials whole attempts; on the all-fail stream exactly MaxTrials*D draws then an error; SuccessProbability() equals the exact fraction within 3 ulp32 of log2|U|^L on the log scale. Non-trivial = requirement present with 0 < p < 1, or a missing/empty list or non-positive length on the wordlist side; distinct = distinct (recipe, limits, stream kind).",
+  rule="rapid-generated character recipes over the whole feasibility range (degenerate: Length <= 0, empty alphabet, exclusion emptying sets; a band generator aiming single-attempt success p below / near / above the refusal threshold), MaxTrials in {1,5,200,1000} and MaxFailRate in {1e-9,1e-3,0.5} varied in a third of the cases, raw boundary-biased streams or a scripted stream on which every attempt fails; wordlist recipes incl. zero values, NewWLRecipe(n,nil), &WordList{}, Length <= 0. Oracle: never a panic; exactly one of (password,error); refused (error, zero draws, zero bytes) iff Length < 1, empty alphabet/list, or (1-p)^MaxTrials > MaxFailRate with p exact (cases within 1% of the limit assert nothing); otherwise an error only after MaxTrials whole attempts; on the all-fail stream exactly MaxTrials*D draws then an error; SuccessProbability() equals the exact fraction within 3 ulp32 of log2|U|^L on the log scale. Non-trivial = requirement present with 0 < p < 1, or a missing/empty list or non-positive length on the wordlist side; distinct = distinct (recipe, limits, stream kind). Confusable sibling recipes are evaluated in the same process; when Generate errs on a recipe it must honour, the source bytes of the first, middle and last attempt are replayed as fresh streams (a success there means a valid candidate was discarded).",
   assumptions=["hook H3/H2 to script the all-fail stream", "reference p_success by inclusion-exclusion (cross-checked in C07)"],
   level_text="Generated-input search against an exact feasibility model, with the rare branch (every attempt fails) forced by a scripted stream.",
   level_note="Threshold comparison is skipped within 1% of the limit (float32 rounding in the library is not part of the property).",
@@ -125,7 +125,7 @@ prop("C13",
 
 prop("C14", race=True,
   shards_quick=8, shards_thorough=16, timeout_quick=1200, timeout_thorough=7200,
-  rule="harness built with -race (GORACE=halt_on_error=1). rapid-generated workloads: a shared CharRecipe, a shared WLRecipe with its WordList and separator function, a package-level preset; 2-16 goroutines, GOMAXPROCS in {2,4,16}, each goroutine a drawn sequence over Generate/Entropy/Alphabet/SuccessProbability/Size/separator calls with repetitions; plus all 66 unordered pairs of operations run as 2x2 goroutines. Oracle: no race report and no runtime fatal error; every password returned under concurrency satisfies the reference validity predicates (C03/C05) and carries the recipe's entropy; every concurrent Entropy/Alphabet/SuccessProbability/Size equals the single-threaded value; shared values unchanged. Non-trivial = at least two goroutines calling set-building methods on shared values; distinct = distinct workloads.",
+  rule="harness built with -race (GORACE=halt_on_error=1). rapid-generated workloads: a shared CharRecipe, a shared WLRecipe with its WordList and separator function, a package-level preset; 2-16 goroutines, GOMAXPROCS in {2,4,16}, each goroutine a drawn sequence over Generate/Entropy/Alphabet/SuccessProbability/Size/separator calls with repetitions; plus all 66 unordered pairs of operations run as 2x2 goroutines. Oracle: no race report and no runtime fatal error; every password returned under concurrency satisfies the reference validity predicates (C03/C05) and carries the recipe's entropy; every concurrent Entropy/Alphabet/SuccessProbability/Size equals the single-threaded value; shared values unchanged. Non-trivial = at least two goroutines calling set-building methods on shared values; distinct = distinct workloads. Reference values are computed after the concurrent phase on separate copies; half of the workloads use a Go-implemented goroutine-safe source so that buffers filled by the source are visible to the race detector; RequireSets carry spare capacity.",
   assumptions=["the Go race detector reports a conflicting pair of accesses whenever both occur in a run, whatever their timing", "the Go scheduler is not controlled: interleavings are those the runtime produces"],
   level_text="Generated concurrent workloads under the race detector with validity oracles; approximates 'all interleavings' by happens-before analysis of the executions that occur.",
   level_note="Schedules are not enumerated; a race needs both accesses to occur in some run. Uses the real OS random source (the tape is process-global).",
@@ -133,7 +133,7 @@ prop("C14", race=True,
 
 prop("C15",
   shards_quick=16, shards_thorough=16,
-  rule="model-based operation sequences generated by rapid (1-40 steps over 1-3 character recipes and 1-2 wordlist recipes): steps assign any public field (incl. replacing RequireSets and overwriting one of its elements through the caller's slice, changing separator/scheme/length) or call Generate/Entropy/Alphabet/SuccessProbability/Size with a fresh rapid-drawn stream. After every call: public fields, the caller's RequireSets backing array and the slice passed to NewWordList equal the caller's view; the result and the bytes consumed equal those of the same call with the same stream on a freshly constructed recipe carrying the same field values; at the end the word lists read out in the same index order as at the start. Non-trivial = a field update between two calls on one recipe, or calls on different recipes interleaved; distinct = distinct sequences.",
+  rule="model-based operation sequences generated by rapid (1-40 steps over 1-3 character recipes and 1-2 wordlist recipes): steps assign any public field (incl. replacing RequireSets and overwriting one of its elements through the caller's slice, changing separator/scheme/length) or call Generate/Entropy/Alphabet/SuccessProbability/Size with a fresh rapid-drawn stream. After every call: public fields, the caller's RequireSets backing array and the slice passed to NewWordList equal the caller's view; the result and the bytes consumed equal those of the same call with the same stream on a freshly constructed recipe carrying the same field values; at the end the word lists read out in the same index order as at the start. Non-trivial = a field update between two calls on one recipe, or calls on different recipes interleaved; distinct = distinct sequences. Results are also compared with the reference model (entropy, alphabet, success probability, validity against the current fields); operations change the exported MaxTrials; package configuration must be unchanged by calls; RequireSets can be replaced by same-shape sets.",
   assumptions=["hook H2 makes a character generation a function of the stream", "the word list object is shared between live and fresh wordlist recipes (its internal order is compared separately)"],
   level_text="Stateful (model-based) generation: whole call histories are generated and shrunk as one value; the oracle is a metamorphic relation across histories.",
   level_note="Scripted (stateful) caller separators are excluded; sequences are at most 40 steps.",
@@ -141,7 +141,7 @@ prop("C15",
 
 prop("C16", exhaustive=True,
   shards_quick=4, shards_thorough=4,
-  rule="finite configuration enumerated completely: 5 class flags (content via Allow, via Require, and as Exclude), Letters/All/None unions and distinct single bits, NewCharRecipe/NewWLRecipe defaults field by field for 9 lengths (one seed-chosen) plus the scheme names and MaxTrials/MaxFailRate, the full choice tree of each of the 7 separator presets (value set, equal weights, reported entropy), both embedded lists line by line against testdata/*.txt (duplicate-free, lower-case). Every item is a documented constant; each item counts as one distinct non-trivial case.",
+  rule="finite configuration enumerated completely: 5 class flags (content via Allow, via Require, and as Exclude), Letters/All/None unions and distinct single bits, NewCharRecipe/NewWLRecipe defaults field by field for 9 lengths (one seed-chosen) plus the scheme names and MaxTrials/MaxFailRate, the full choice tree of each of the 7 separator presets (value set, equal weights, reported entropy), both embedded lists line by line against testdata/*.txt (duplicate-free, lower-case). Every item is a documented constant; each item counts as one distinct non-trivial case. Every item is evaluated again after a warm-up using ~6500 other recipes, the presets, the shipped lists through NewWordList and separators that cannot be generated.",
   assumptions=["testdata/agwordlist.txt and agsyllables.txt in the tree under test are the source data files", "class contents are typed in from the property text"],
   level_text="Complete enumeration of a finite documented configuration.",
   level_note="The oracle constants are transcribed from the property statement and documentation.",
@@ -150,7 +150,7 @@ prop("C16", exhaustive=True,
 
 prop("C17", needs_opgen=True,
   shards_quick=16, shards_thorough=16,
-  rule="rapid-generated command lines from the documented grammar (subcommand incl. missing/unknown; --length/--size incl. 0 and negative; --allow/--require/--exclude comma lists with spaces, repeats, empty; --list incl. unknown; --file with generated files incl. duplicates, twins, empty; --separator; --capitalize; --entropy; unknown flags; -x/--x and '='/separate-argument spellings, any order). The real binary built from the tree under test is executed; a CLI model maps argv to the library recipe evaluated in-process: honoured -> exit 0 and stdout exactly one line that is a member of the recipe's language (character recipes: reference validity; wordlist: DP parse into Length atoms of the kept list under the scheme with the separator's values) or, with --entropy, Sprintf(%.2f, recipe.Entropy()); usage errors -> exit 2; refused recipes -> exit 1 and no stdout line in the language. Non-trivial = a run with >= 2 flags; distinct = distinct (argv, file content).",
+  rule="rapid-generated command lines from the documented grammar (subcommand incl. missing/unknown; --length/--size incl. 0 and negative; --allow/--require/--exclude comma lists with spaces, repeats, empty; --list incl. unknown; --file with generated files incl. duplicates, twins, empty; --separator; --capitalize; --entropy; unknown flags; -x/--x and '='/separate-argument spellings, any order). The real binary built from the tree under test is executed; a CLI model maps argv to the library recipe evaluated in-process: honoured -> exit 0 and stdout exactly one line that is a member of the recipe's language (character recipes: reference validity; wordlist: DP parse into Length atoms of the kept list under the scheme with the separator's values) or, with --entropy, Sprintf(%.2f, recipe.Entropy()); usage errors -> exit 2; refused recipes -> exit 1 and no stdout line in the language. Non-trivial = a run with >= 2 flags; distinct = distinct (argv, file content). Every honoured password command line is executed a second time with --entropy and compared with the library recipe's entropy; file lists include words with '%'.",
   assumptions=["inputs on which the statement is silent are not generated: unknown separator/scheme/class words, unreadable files, --entropy with a refused recipe, top-level -h", "real OS randomness: faithfulness is a membership test, not a distribution"],
   level_text="Generated-input differential between the real CLI binary and a model built on the library and the reference predicates.",
   level_note="One process execution per case (~10 ms).",
@@ -158,7 +158,7 @@ prop("C17", needs_opgen=True,
 
 prop("C18",
   shards_quick=16, shards_thorough=16,
-  rule="rapid-generated recipes of both kinds incl. refused, degenerate (empty alphabet, Length 0), retried and forced-stream generations and word lists with duplicates; every call (NewWordList, Generate, Entropy, SuccessProbability, Alphabet) runs with file descriptors 1 and 2 redirected to a file (captures fmt, log, println). (1) direct: the returned password, every atom >= 3 characters, separator >= 2 characters, every 6-character window of a character password, every list word and every reconstructed rejected candidate window must not occur in the captured bytes; (2) non-interference: the same calls under two different streams must give captures that are identical after replacing number literals and stripping log timestamps. Non-trivial = a call that produced diagnostic output, or a generation with rejected candidates; distinct = distinct recipes.",
+  rule="rapid-generated recipes of both kinds incl. refused, degenerate (empty alphabet, Length 0), retried and forced-stream generations and word lists with duplicates; every call (NewWordList, Generate, Entropy, SuccessProbability, Alphabet) runs with file descriptors 1 and 2 redirected to a file (captures fmt, log, println). (1) direct: the returned password, every atom >= 3 characters, separator >= 2 characters, every 6-character window of a character password, every list word and every reconstructed rejected candidate window must not occur in the captured bytes; (2) non-interference: the same calls under two different streams must give captures that are identical after replacing number literals and stripping log timestamps. Non-trivial = a call that produced diagnostic output, or a generation with rejected candidates; distinct = distinct recipes. Wordlist recipes are also run on forced constant-index streams (separator recipes with a requirement then reject all candidates); whole passwords of the previous 16 calls must not appear in later diagnostics; alphabets include blanks.",
   assumptions=["word pools and alphabets for this check avoid strings that occur in the library's fixed diagnostic texts", "secrets returned inside error values are outside the statement (stdout/stderr/log only)"],
   level_text="Generated-input search with a direct leak oracle and a non-interference (two-run) oracle over captured process output.",
   level_note="Output written through other file descriptors or files is not observed.",
